@@ -228,6 +228,17 @@ fn run_case(case: &Case, drv: &mut Driver, rep: &mut Report) -> Vec<(String, Str
         }
     };
     let name = case.sheet.name.clone();
+    // a reader opened with the option must read under it BEFORE anything sets it again
+    if fmt == Fmt::Xls && case.seed % 3 == 0 && !case.options.is_empty() && window_area(&case.sheet, &case.options[0]) <= (1 << 21) {
+        match guarded(|| wbk.worksheet_range(&name)) {
+            Ok(Ok(r)) => {
+                if let Err(why) = oracle(&case.sheet, &case.options[0], &r) {
+                    fails.push(("impl_vs_spec".into(), "xls:option-at-construction".into(), format!("{:?}..{:?}", r.start(), r.end()), String::new(), why));
+                }
+            }
+            other => fails.push(("impl_vs_spec".into(), "xls:option-at-construction-read".into(), format!("{:?}", other.map(|x| x.map(|_| ()))), String::new(), "Ok".into())),
+        }
+    }
     let table: Vec<Data> = {
         let mut t: Vec<Data> = vec![];
         for v in case.sheet.cells.values() {
